@@ -1286,8 +1286,7 @@ func (p *KVStore) DeletePayment(_ context.Context, paymentHash lntypes.Hash,
 
 		bucket := payments.NestedReadWriteBucket(paymentHash[:])
 		if bucket == nil {
-			return fmt.Errorf("non bucket element in payments " +
-				"bucket")
+			return ErrPaymentNotInitiated
 		}
 
 		// If the status is InFlight, we cannot safely delete
